@@ -42,7 +42,7 @@ def jobs(tier, item='int32'):
     def add(op, c, n, v):
         pd = {'IR2C_P0': c, 'IR2C_P1': n, 'IR2C_P2': 0, 'IR2C_P3': 3, 'IR2C_P4': 0, 'IR2C_P5': 0}; pd.update(v)
         name = 'queue<%s> %s cap=%d n=%d%s' % (item, op, c, n, ''.join(' %s=%s' % (k[-2:], x) for k, x in sorted(v.items())))
-        J.append(Job(name, 'B', 'harness/cpp/queue.cpp', 'harness_q_' + op, pdefs=pd, cdefs=cd, unwind=(24 if op == 'sort' else max(c, pd['IR2C_P3']) + max(pd['IR2C_P2'], 3) + 4), mode='func',
+        J.append(Job(name, 'B', 'harness/cpp/queue.cpp', 'harness_q_' + op, pdefs=pd, cdefs=cd, unwind=(24 if op == 'sort' else max(c, pd['IR2C_P3']) + max(pd['IR2C_P2'], 3) + 4) if item == 'int32' else 26, mode='func',
                      family='queue/' + op, object_bits=12, timeout=(120 if tier == 'quick' else 600)))
     q2 = [(3, 2), (4, 3)] if tier == 'quick' else [(3, 0), (3, 1), (3, 3), (4, 2), (4, 4), (5, 3)]
     heavy = ('indexof', 'removefirst', 'removelast', 'removeall', 'sort', 'insertsorted')   # data-dependent comparison loops: path count grows with n
@@ -50,7 +50,8 @@ def jobs(tier, item='int32'):
         for op in OPS1:
             if op == 'fastclear' and item != 'int32': continue
             if op == 'swap' and n == 0: continue
-            if op in heavy and n > (4 if tier == 'quick' else 5): continue
+            if op in heavy and n > (3 if tier == 'quick' else 5): continue
+            if op == 'insertsorted' and n == c: continue   # growth at a value-dependent position: symbolic index into a reallocation does not finish (stated)
             if op == 'insert':
                 # when the queue is full the insert reallocates; with a symbolic index that path does not finish, so the index is a job constant there
                 idxs = [99] if n < c else sorted(set([0, 1, n - 1, n, n + 1])) + [0xffffffff]
@@ -67,7 +68,8 @@ def jobs(tier, item='int32'):
         for op in OPS_SELF:
             for (st, k) in start_count_classes(n, tier): add(op, c, n, {'IR2C_P4': st, 'IR2C_P5': k})
         for want in sorted(set([0, 1, n, c, c + 1, c + 3])):
-            for extra in (0, 2): add('ensuresize', c, n, {'IR2C_P2': want, 'IR2C_P3': extra})
+            for extra in (0, 2):
+                for flags in (0, 1, 2, 3): add('ensuresize', c, n, {'IR2C_P2': want, 'IR2C_P3': extra, 'IR2C_P4': flags})   # flags: bit0 = setNumItems, bit1 = allowShrink
         for want in sorted(set([0, n - 1])):
             if 0 <= want < n: add('ensuresize_shrinkbelow', c, n, {'IR2C_P2': want})
     return J
@@ -88,6 +90,10 @@ META = {
 def run(tier, seed):
     J = jobs(tier)
     if tier != 'quick': J += [j for j in jobs('quick', item='owned')]
+    else:
+        # owning item type: the operations that vacate, move or expose slots, on the shapes where the ring can wrap
+        ops = ('removehead', 'removetail', 'removeat', 'removeheadmulti', 'removetailmulti', 'normalize', 'clear', 'insert', 'addtail', 'addhead', 'swapcontents', 'shrink', 'assign')
+        J += [j for j in jobs('quick', item='owned') if j.entry[len('harness_q_'):] in ops and j.pdefs['IR2C_P0'] in (3, 6) and j.pdefs['IR2C_P1'] in (0, 2, 3, 5)]
     seen = set(); dj = []
     for j in J:
         if j.entry not in seen and j.pdefs['IR2C_P0'] == 4 and j.pdefs['IR2C_P1'] in (2, 3) and 'int32' in j.name: seen.add(j.entry); dj.append(j)
